@@ -17,6 +17,7 @@ mod c15;
 mod c07;
 mod c11;
 mod c18;
+mod c18_net;
 mod c08;
 mod c14;
 mod c13;
